@@ -26,7 +26,8 @@ class Gen:
     # ---- parameter pools (small, so that equal and adjacent values are frequent) -----------------
     def ns_small(self):
         r = self.rnd
-        return r.choice([0, 1, -1, 100, -100, NPD, -NPD, NPD - 1, -NPD + 1, r.randint(-3, 3) * NPD + r.randint(-2, 2), r.randint(-10**15, 10**15)])
+        return r.choice([0, 1, -1, 100, -100, NPD, -NPD, -2 * NPD, 3 * NPD, NPD - 1, -NPD + 1, r.randint(-3, 3) * NPD + r.randint(-2, 2),
+                         r.randint(-40, 40) * 3600 * 10**9, r.randint(-10**15, 10**15)])
 
     def cal(self):
         r = self.rnd
@@ -52,11 +53,35 @@ class Gen:
         from pyoda_time.time_zones import ZoneInterval
 
         if typ == "Duration":
-            return Duration._ctor(days=p[0] // NPD, nano_of_day=p[0] % NPD)
+            # the same length of time through one of several equivalent public routes: equal values must be equal, hash equally
+            # and order the same whichever route built them
+            ns = p[0]
+            routes = [lambda: Duration._ctor(days=ns // NPD, nano_of_day=ns % NPD), lambda: Duration.from_nanoseconds(ns),
+                      lambda: -Duration.from_nanoseconds(-ns), lambda: Duration.from_nanoseconds(ns) * 1,
+                      lambda: (Duration.from_nanoseconds(ns) * 2) / 2, lambda: Duration.zero + Duration.from_nanoseconds(ns),
+                      lambda: Duration.from_nanoseconds(2 * ns) - Duration.from_nanoseconds(ns)]
+            if ns % 100 == 0:
+                routes.append(lambda: Duration.from_ticks(ns // 100))
+            if ns % 10**9 == 0:
+                routes += [lambda: Duration.from_seconds(ns // 10**9), lambda: Period.from_seconds(ns // 10**9).to_duration()]
+            if ns % NPD == 0:
+                routes += [lambda: Duration.from_days(ns // NPD), lambda: Duration.from_days(float(ns // NPD)), lambda: Duration.from_hours(24 * (ns // NPD)),
+                           lambda: Period.from_days(ns // NPD).to_duration(), lambda: Duration.from_days(-(ns // NPD)) * -1]
+            return self.rnd.choice(routes)()
         if typ == "Instant":
-            return Instant._ctor(days=p[0] // NPD, nano_of_day=p[0] % NPD)
+            ns = p[0]
+            routes = [lambda: Instant._ctor(days=ns // NPD, nano_of_day=ns % NPD), lambda: Instant.from_unix_time_ticks(0).plus_nanoseconds(ns),
+                      lambda: Instant.from_unix_time_ticks(0) + Duration.from_nanoseconds(ns), lambda: Instant.from_unix_time_ticks(0) - Duration.from_nanoseconds(-ns)]
+            if ns % 100 == 0:
+                routes.append(lambda: Instant.from_unix_time_ticks(ns // 100))
+            if ns % 10**9 == 0:
+                routes.append(lambda: Instant.from_unix_time_seconds(ns // 10**9))
+            return self.rnd.choice(routes)()
         if typ == "Offset":
-            return Offset.from_seconds(p[0])
+            sec = p[0]
+            routes = [lambda: Offset.from_seconds(sec), lambda: Offset.from_milliseconds(sec * 1000), lambda: -Offset.from_seconds(-sec),
+                      lambda: Offset.zero + Offset.from_seconds(sec), lambda: Offset.from_ticks(sec * 10**7), lambda: Offset.from_nanoseconds(sec * 10**9)]
+            return self.rnd.choice(routes)()
         if typ == "LocalDate":
             return LocalDate._ctor(days_since_epoch=p[1], calendar=self.cals[p[0]])
         if typ == "LocalTime":
@@ -103,7 +128,7 @@ class Gen:
         if typ in ("Duration",):
             return [self.ns_small()]
         if typ == "Instant":
-            return [r.choice([0, 1, -1, NPD, r.randint(-10**15, 10**15)])]
+            return [r.choice([0, 1, -1, NPD, -NPD, -NPD + 1, -2 * NPD, r.randint(-30, 30) * 3600 * 10**9, r.randint(-10**15, 10**15)])]
         if typ in ("Offset", "FixedZone"):
             return [self.off()]
         if typ in ("LocalDate", "YearMonth"):
@@ -259,6 +284,9 @@ def gen(args) -> list:
             continue
         if rnd.random() < 0.85:
             keys = [g.key(typ, v) for v in vals]
+            if typ in ("Duration", "Instant"):
+                # what the value *is* comes from the parameters, not from asking the value (whose internal split is under test)
+                keys = [(proj.t3_from_ns(p0[0]), proj.t3_from_ns(p0[0]), 0) for p0 in (pa, pb, pc)]
             ev = {"op": "triple", "type": typ, "keys": [k[0] for k in keys], "grp": [k[2] for k in keys],
                   "ordered": typ in ORDERED, "has_minmax": typ in MINMAX, "hashable": typ not in UNHASHABLE}
             ev["ord"] = [k[1] if k[1] is not None else [] for k in keys]
@@ -317,7 +345,8 @@ def gen(args) -> list:
             if typ in ORDERED:
                 ok = True
                 for f in foreign:
-                    for fn in (lambda: x0 < f, lambda: x0 <= f, lambda: x0 > f, lambda: x0 >= f):
+                    for fn in (lambda: x0 < f, lambda: x0 <= f, lambda: x0 > f, lambda: x0 >= f,
+                               lambda: f < x0, lambda: f <= x0, lambda: f > x0, lambda: f >= x0):
                         if _cmp(fn) is not None:
                             ok = False
                     if hasattr(x0, "compare_to") and _cmp(lambda: x0.compare_to(f)) is not None:
@@ -360,6 +389,25 @@ def gen(args) -> list:
                     op()
                 except Exception:  # noqa: BLE001
                     pass
+            # the library's own shared state moving on must not change a value either: every calendar / zone factory is asked again
+            # (a value that looks its calendar or zone up at hash or comparison time would follow whatever they return now)
+            member = typ in UNHASHABLE or (v in {v})
+            try:
+                from pyoda_time import CalendarSystem as _CS, DateTimeZone as _DTZ, Offset as _Off
+                from pyoda_time.calendars import HebrewMonthNumbering as _HMN, IslamicEpoch as _IE, IslamicLeapYearPattern as _ILP
+
+                for num in _HMN:
+                    _CS.get_hebrew_calendar(num)
+                for ep in _IE:
+                    for pat in _ILP:
+                        _CS.get_islamic_calendar(pat, ep)
+                for cid in _CS.ids:
+                    _CS.for_id(cid)
+                _DTZ.for_offset(_Off.from_seconds(3600))
+            except Exception:  # noqa: BLE001
+                pass
+            if typ not in UNHASHABLE:
+                member = member and hash(v) == hb and (v in {vals[0]}) and (g.make(typ, pa) in {v} if typ not in ("Duration", "Instant", "Offset") else True)
             after = g.key(typ, v)
             rejected = True
             for name in dir(v):
@@ -372,7 +420,7 @@ def gen(args) -> list:
                     except Exception:  # noqa: BLE001
                         pass
             evs.append({"op": "immut", "type": typ, "methods_called": called, "unchanged": before == after and (typ in UNHASHABLE or hash(v) == hb)
-                        and g.key(typ, v) == before, "setattr_rejected": rejected})
+                        and g.key(typ, v) == before and member, "setattr_rejected": rejected})
     return evs
 
 
